@@ -41,6 +41,50 @@ class Stop(Exception):
     pass
 
 
+class Retry(Exception):
+    def __init__(self, heads):
+        self.heads = heads
+
+
+def natural_loops(body):
+    """{head: set(blocks)} of natural loops (back edge u→h with h dominating u)."""
+    cache = getattr(body, "_loops", None)
+    if cache is not None:
+        return cache
+    loops = {}
+    succ, pred = body.succ(), body.pred()
+    for u in sorted(body.reachable()):
+        for h in succ[u]:
+            if body.dominates(h, u):
+                nodes = loops.setdefault(h, {h})
+                st = [u]
+                while st:
+                    x = st.pop()
+                    if x in nodes:
+                        continue
+                    nodes.add(x)
+                    st.extend(p for p in pred[x] if p in body.reachable())
+    body._loops = loops
+    return loops
+
+
+def loop_written_locals(body, nodes):
+    out = set()
+    mutref = {}
+    for bi in nodes:
+        blk = body.blocks[bi]
+        for st in blk["stmts"]:
+            if st["k"] == "assign":
+                out.add(st["place"]["l"])
+                rv = st["rv"]
+                if rv["k"] in ("ref", "rawptr") and rv.get("mut", True) and rv["place"]["p"][:1] != ["deref"]:
+                    out.add(rv["place"]["l"])
+        t = blk["term"]
+        if t["k"] == "call":
+            out.add(t["dest"]["l"])
+    return out
+
+
 class Frame:
     def __init__(self, body, args):
         self.body = body
@@ -142,6 +186,11 @@ class AbsExec:
                 return Adt(cur.name, cur.variant, fs)
             if hasattr(self.domain, "set_field"):
                 return self.domain.set_field(self, cur, i, self._updated(fr, self._field(cur, i), proj[1:], val))
+            if cur is TOP or cur == TOP:
+                # an otherwise unknown aggregate of which one field becomes known
+                fs = [TOP] * (i + 1)
+                fs[i] = self._updated(fr, TOP, proj[1:], val)
+                return Adt("opaque", None, fs)
             return TOP
         if isinstance(e, dict) and "idx" in e:
             i = fr.env.get(e["idx"], TOP)
@@ -163,6 +212,8 @@ class AbsExec:
             if "int" in op:
                 v = int(op["int"])
                 return bool(v) if op.get("ty") == "bool" else v
+            if "tyconst" in op and len(getattr(self, "generic_ints", [])) == 1:
+                return self.generic_ints[0]
             if hasattr(self.domain, "const"):
                 return self.domain.const(self, op)
             return TOP
@@ -187,9 +238,15 @@ class AbsExec:
                 return int(v)
             if isinstance(v, int):
                 return _wrap(v, rv["ty"])
+            if hasattr(self.domain, "cast"):
+                return self.domain.cast(self, fr, rv, v)
             return v
         if k == "binop":
             a, b = self.operand(fr, rv["a"]), self.operand(fr, rv["b"])
+            if hasattr(self.domain, "binop_ex"):
+                r = self.domain.binop_ex(self, fr, rv, a, b)
+                if r is not NotImplemented:
+                    return r
             return self.binop(rv["op"], a, b, rv)
         if k == "unop":
             a = self.operand(fr, rv["a"])
@@ -257,11 +314,27 @@ class AbsExec:
 
     # ---------------------------------------------------------------- execution
     def run(self, body, args):
-        """Explore all paths; returns list of (return value, frame)."""
-        results = []
-        fr = Frame(body, args)
-        self._explore(fr, 0, results, set())
-        return results
+        """Explore all paths; returns list of (return value, frame). Loops whose continuation cannot be decided from
+        constants are re-run with every local written in the loop forgotten at the loop head (sound over-approximation)."""
+        heads = self.abstract_heads()
+        for _ in range(64):
+            results = []
+            fr = Frame(body, [_clone_val(a, None, None) for a in args])
+            try:
+                self._explore(fr, 0, results, set())
+                return results
+            except Retry as r:
+                if getattr(self, "depth", 0) > 0:
+                    raise
+                if not (set(r.heads) - heads):
+                    raise FactsError("loop abstraction did not converge in %s" % body.path)
+                heads |= set(r.heads)
+        raise FactsError("too many loop abstractions in %s" % body.path)
+
+    def abstract_heads(self):
+        if not hasattr(self.domain, "_abstract_heads"):
+            self.domain._abstract_heads = set()
+        return self.domain._abstract_heads
 
     def _explore(self, fr, bb, results, visiting, depth=0):
         while True:
@@ -269,6 +342,9 @@ class AbsExec:
             if self.steps > self.max_steps or len(results) > self.max_paths:
                 raise FactsError("abstract execution budget exceeded in %s" % fr.body.path)
             blk = fr.body.blocks[bb]
+            if (fr.body.path, bb) in self.abstract_heads():
+                for l in loop_written_locals(fr.body, natural_loops(fr.body)[bb]):
+                    fr.env[l] = self.domain.havoc(self, fr, l) if hasattr(self.domain, "havoc") else TOP
             for st in blk["stmts"]:
                 if st["k"] == "assign":
                     self.write_place(fr, st["place"], self.rvalue(fr, st["rv"]))
@@ -281,6 +357,10 @@ class AbsExec:
                 bb = t["target"]
                 continue
             if k == "assert":
+                if hasattr(self.domain, "on_assert"):
+                    go = self.domain.on_assert(self, fr, bb, t, self.operand(fr, t["cond"]))
+                    if go is False:
+                        return
                 bb = t["target"]
                 continue
             if k == "call":
@@ -293,12 +373,24 @@ class AbsExec:
                     if cb is not None and self.inline(fk.d):
                         sub = AbsExec(self.F, self.domain, self.max_steps, self.max_paths, self.inline)
                         sub.steps = self.steps
+                        sub.depth = getattr(self, "depth", 0) + 1
+                        import re as _re
+                        gi = [int(x) for x in _re.findall(r"<(\d+)(?:_usize)?>", fk.i)] or [int(x) for x in (fk.get("args") or []) if isinstance(x, str) and x.isdigit()]
+                        sub.generic_ints = gi or getattr(self, "generic_ints", [])
+                        if sub.depth > 12:
+                            raise FactsError("inlining depth exceeded at %s" % fk.d)
                         rs = sub.run_shared(cb, args)
                         self.steps = sub.steps
                         vals = [r[0] for r in rs]
                         val = vals[0] if vals and all(_same(v, vals[0]) for v in vals) else (self.domain.join(self, vals) if hasattr(self.domain, "join") and vals else TOP)
                     else:
                         val = TOP
+                        # an unmodelled callee may write through every `&mut` it receives
+                        for aop, av in zip(t["args"], args):
+                            if isinstance(av, Ref) and aop.get("k") in ("copy", "move"):
+                                aty = fr.body.locals[aop["place"]["l"]]["ty"] if not aop["place"]["p"] else ""
+                                if aty.startswith("&mut"):
+                                    self._write_into(av.frame, av.local, list(av.proj), self.domain.havoc_value(self, aty) if hasattr(self.domain, "havoc_value") else TOP)
                 if t["target"] is None:
                     return
                 self.write_place(fr, t["dest"], val)
@@ -322,7 +414,11 @@ class AbsExec:
                             nxt = tg
                     bb = nxt
                     continue
-                # unknown condition: fork
+                # unknown condition: fork. Inside a loop that is still treated concretely → restart with that loop abstracted.
+                if getattr(self.domain, "sound_loops", False):
+                    need = [(fr.body.path, h) for h, nodes in natural_loops(fr.body).items() if bb in nodes and (fr.body.path, h) not in self.abstract_heads()]
+                    if need:
+                        raise Retry(need)
                 succ = []
                 armvals = [int(a[0]) for a in t["arms"]]
                 for val, tg in t["arms"]:
